@@ -84,7 +84,8 @@ def funnel_cases(draw, tier="quick"):
     deco = lambda: (draw(st.sampled_from([b"", b"", b"/", b"./", b"//", b"././", b"/./"])), draw(st.sampled_from([b"/", b"/", b"//", b"/./", b"/.//"])),
                     draw(st.sampled_from([b"", b"", b"/", b"/.", b"//"])))
     return dict(nodes=nodes, deco_name={n["path"]: deco() for n in nodes}, deco_tgt={n["path"]: deco() for n in nodes if n["type"] == "hlink"},
-                what=draw(st.sampled_from(["tar_names", "tar_names", "tar_exclude", "pack_file", "rd_path", "dotdot"])),
+                what=draw(st.sampled_from(["tar_names", "tar_names", "tar_exclude", "pack_file", "rd_path", "dotdot", "s2t_opts"])),
+                s2t_root=draw(st.sampled_from([b"pre", b"pre/sub", b"x.y", b".hid"])), s2t_deco=deco(),
                 exclude=draw(st.sampled_from([b"skip/*", b"dir", b"*/sub", b"a*"])), ex_deco=deco(),
                 dd_where=draw(st.sampled_from(["name", "target", "arg"])), dd_style=draw(st.sampled_from([b"../", b"x/../", b"./../", b"x/.././"])))
 
@@ -208,6 +209,32 @@ def check_case(case, opts):
             if a.rc != b.rc or a.out != b.out:
                 raise Violation("rdsquashfs %s %r answers differently from %s %r (exit %d vs %d)" % (flag, sp, flag, b"/" + n["path"], b.rc, a.rc), None, sig="spelling-rd")
             return CaseInfo(sp != n["path"], ["rd_path" + flag])
+        if what == "s2t_opts":
+            # sqfs2tar --root-becomes / --subdir arguments
+            r1 = t2s_run(_tar(case, canon_names, canon_tgts), o1)
+            if r1.rc != 0:
+                raise Inconclusive("image build")
+            s2t = vcommon.tool("asan", "sqfs2tar")
+            rootc = case["s2t_root"]
+            roots = spell(rootc, case["s2t_deco"], True)
+            dirs_ = [n["path"] for n in nodes if n["type"] == "dir"]
+            runs = [(["-r", rootc], ["-r", roots], "--root-becomes %r vs %r" % (roots, rootc))]
+            if dirs_:
+                dsel = dirs_[len(dirs_) // 2]
+                runs.append((["-d", dsel], ["-d", sp_names[dsel]], "--subdir %r vs %r" % (sp_names[dsel], dsel)))
+            for a_, b_, label in runs:
+                ra = vcommon.run([s2t] + a_ + [o1], timeout=30)
+                rb = vcommon.run([s2t] + b_ + [o1], timeout=30)
+                judge(ra, "sqfs2tar")
+                judge(rb, "sqfs2tar")
+                if ra.rc != rb.rc or ra.out != rb.out:
+                    raise Violation("sqfs2tar %s: different archives (exit %d vs %d)" % (label, rb.rc, ra.rc), None, sig="spelling-s2t")
+            # and a '..' in the new root name is refused
+            rbad = vcommon.run([s2t, "-r", case["dd_style"] + rootc, o1], timeout=30)
+            judge(rbad, "sqfs2tar")
+            if rbad.rc == 0:
+                raise Violation("sqfs2tar --root-becomes %r (a '..' component) succeeds" % (case["dd_style"] + rootc), None, sig="dotdot-accepted")
+            return CaseInfo(roots != rootc, ["s2t_opts"])
         # '..' anywhere must be refused
         where = case["dd_where"]
         victim = nodes[-1]
